@@ -43,7 +43,7 @@ template <class S> Problem<S> make_problem(int n, int p, long double kappa, long
   P.Y = Yl.template cast<S>();
   P.W = PVec::Ones(n);
   if (weights) { P.weighted = true; for (int i = 0; i < n; ++i) P.W(i) = weights == 1 ? (S)(i % 2 ? 0.25 : 4.0) : weights == 2 ? (S)(i == n / 2 ? 0 : 1) : (S)(i == 0 ? 1000 : 1); }
-  if (prec) { P.precond = true; P.Adiag = PVec(p); P.b = PVec::Zero(p); for (int j = 0; j < p; ++j) { P.Adiag(j) = (S)(j % 2 ? 0.5 : 3.0); if (prec == 2) P.b(j) = (S)(0.25 * (j + 1)); } }
+  if (prec) { P.precond = true; P.Adiag = PVec(p); P.b = PVec::Zero(p); for (int j = 0; j < p; ++j) { P.Adiag(j) = prec == 3 ? (S)1 : (S)(j % 2 ? 0.5 : 3.0); if (prec >= 2) P.b(j) = (S)(0.25 * (j + 1)); } }   // 1: diagonal, 2: diagonal + offset, 3: identity + offset
   return P;
 }
 
@@ -70,7 +70,7 @@ template <class S> void lattice(vf::Ctx& c, const char* tname, int p, int ni) {
   int n = ns[ni];
   std::vector<long double> kappas = {1, 1e2L, 1e4L, 1e6L};
   std::vector<long double> mags = dbl ? std::vector<long double>{powl(2, -27), powl(2, -10), 1, powl(2, 10)} : std::vector<long double>{powl(2, -13), powl(2, -6), 1, powl(2, 6)};
-  for (long double kappa : kappas) for (long double mag : mags) for (int cons = 0; cons < 3; ++cons) for (int w = 0; w < 4; ++w) for (int prec = 0; prec < 3; ++prec) {
+  for (long double kappa : kappas) for (long double mag : mags) for (int cons = 0; cons < 3; ++cons) for (int w = 0; w < 4; ++w) for (int prec = 0; prec < 4; ++prec) {
     if (p == 1 && kappa != 1) continue;
     Problem<S> P = make_problem<S>(n, p, kappa, mag, cons, w, prec, 0);
     // reference: (weighted) least squares by Householder QR in long double on the problem as stored in S
@@ -170,7 +170,7 @@ void vf_run(uint64_t idx, const std::string& tier, vf::Ctx& c) {
 
 std::string vf_describe(const std::string& tier) {
   vf::JO o;
-  o.str("L", "estimate size 1..8 x data size {p,p+1,2p,50,500} x kappa {1,1e2,1e4,1e6} x magnitude {2^-27,2^-10,1,2^10} (float {2^-13,2^-6,1,2^6}) x Y {consistent, inconsistent, strongly inconsistent} x weights {none, alternating 1/4..4, one zero, one huge} x preconditioner {none, diagonal, diagonal+offset}; cases with kappa^2 eps > 0.05 are skipped (no digits in the normal equations)");
+  o.str("L", "estimate size 1..8 x data size {p,p+1,2p,50,500} x kappa {1,1e2,1e4,1e6} x magnitude {2^-27,2^-10,1,2^10} (float {2^-13,2^-6,1,2^6}) x Y {consistent, inconsistent, strongly inconsistent} x weights {none, alternating 1/4..4, one zero, one huge} x preconditioner {none, diagonal, diagonal+offset, identity+offset}; cases with kappa^2 eps > 0.05 are skipped (no digits in the normal equations)");
   o.str("L_oracle", "Householder-QR solution in long double; |x - x_ref| <= 64 p eps kappa^2 (|x|+|Y|/smax); normal-equation residual; Cholesky vs SVD path");
   o.i("S_depth", tier == "thorough" ? 4 : 3).str("S_ops", "problem(p in 1..3 via setEstimateSize, n in {p,p+2,8}, solver in {Cholesky, SVD, weighted}, preconditioner on/off) = 54 operations; buffers NaN-poisoned before each problem; result vs fresh solver within 256*9 eps");
   return o.done();
